@@ -28,7 +28,11 @@ from wheatley.parsing import (
 
 from wheatley.row_generation import RowGenerator, ComplibCompositionGenerator
 from wheatley.row_generation import MethodPlaceNotationGenerator
-from wheatley.row_generation.complib_composition_generator import PrivateCompError, InvalidCompError
+from wheatley.row_generation.complib_composition_generator import (
+    PrivateCompError,
+    InvalidCompError,
+    InvalidComplibURLError,
+)
 from wheatley.row_generation.method_place_notation_generator import (
     MethodNotFoundError,
     generator_from_special_title,
@@ -44,7 +48,7 @@ def create_row_generator(args: argparse.Namespace) -> RowGenerator:
     elif "comp" in args and args.comp is not None:
         try:
             return ComplibCompositionGenerator.from_arg(args.comp)
-        except (PrivateCompError, InvalidCompError) as e:
+        except (PrivateCompError, InvalidCompError, InvalidComplibURLError) as e:
             sys.exit(f"Bad value for '--comp': {e}")
     elif "method" in args and args.method is not None:
         try:
